@@ -385,6 +385,7 @@ func (l *Linter) LintFiles(filepaths []string, project *Project) ([]*Error, erro
 	}
 
 	if err := eg.Wait(); err != nil {
+		proc.wait() // Ensure that all processes finish also when returning the error
 		return nil, err
 	}
 
